@@ -304,4 +304,392 @@ theorem merge_length {ty : JoinType} {on : Option (List String)} {a b out : List
     | none => rw [hm] at hp; cases hp
     | some c => simp [ih (fun q hq => this q (by simp [hq]))]
 
+/-! ### 5. coalesce -/
+
+/-- **coalesce_first_wins**: the result holds exactly the cells that are the FIRST cell with their
+coordinate `(metadata, period, evaluation date)` in triangle-list order — the unmodified cell
+(equality includes the values) of the earliest triangle that has the coordinate —, one cell per
+coordinate, and every coordinate of every triangle is represented. -/
+theorem coalesce_first_wins {ts : List (List Cell)} {out : List Cell} (h : coalesce ts = .ok out) :
+    (∀ c, c ∈ out ↔ ts.flatten.find? (fun d => coalKey d == coalKey c) = some c) ∧
+    (out.map coalKey).Nodup ∧
+    (∀ d ∈ ts.flatten, coalKey d ∈ out.map coalKey) := by
+  have hp : out.Perm (firstsBy coalKey [] ts.flatten) := ofCells_perm h
+  refine ⟨fun c => ?_, ?_, fun d hd => ?_⟩
+  · rw [hp.mem_iff, mem_firstsBy]; simp
+  · exact (hp.map _).nodup_iff.mpr (firstsBy_keys_nodup coalKey [] _).1
+  · rcases firstsBy_covers coalKey [] _ d hd with h | h
+    · cases h
+    · exact (hp.map _).mem_iff.mpr h
+
+theorem coalKey_eq_joinKey (c : Cell) : coalKey c = joinKey false c := rfl
+
+/-- every cell of the first triangle survives (when its coordinates are distinct) -/
+theorem coalesce_head_kept {t : List Cell} {ts : List (List Cell)} {out : List Cell}
+    (h : coalesce (t :: ts) = .ok out) (hn : (t.map coalKey).Nodup) : ∀ c ∈ t, c ∈ out := by
+  intro c hc
+  rw [(coalesce_first_wins h).1, List.flatten_cons, List.find?_append]
+  have : t.find? (fun d => coalKey d == coalKey c) = some c :=
+    (cellAt_eq_some_iff (inc := false) (t := t) hn).mpr ⟨hc, rfl⟩
+  rw [this]; rfl
+
+/-- a cell of the second triangle survives when the first triangle lacks its coordinate, and is
+shadowed (absent, unless the very same cell is also in the first triangle) when it has it -/
+theorem coalesce_later {t u : List Cell} {out : List Cell}
+    (h : coalesce [t, u] = .ok out) (hn : (u.map coalKey).Nodup) {c : Cell} (hc : c ∈ u) :
+    (coalKey c ∉ t.map coalKey → c ∈ out) ∧ (coalKey c ∈ t.map coalKey → c ∉ t → c ∉ out) := by
+  rw [(coalesce_first_wins h).1]
+  simp only [List.flatten_cons, List.flatten_nil, List.append_nil, List.find?_append]
+  have hu : u.find? (fun d => coalKey d == coalKey c) = some c :=
+    (cellAt_eq_some_iff (inc := false) (t := u) hn).mpr ⟨hc, rfl⟩
+  cases ht : t.find? (fun d => coalKey d == coalKey c) with
+  | none =>
+    refine ⟨fun _ => by simp [hu], fun hm => ?_⟩
+    obtain ⟨d, hd, hk⟩ := List.mem_map.mp hm
+    have := List.find?_eq_none.mp ht d hd
+    simp [hk] at this
+  | some d =>
+    have hd := List.find?_some ht
+    have hm := List.mem_of_find?_eq_some ht
+    refine ⟨fun hnm => absurd (List.mem_map.mpr ⟨d, hm, by simpa using hd⟩) hnm, fun _ hct => ?_⟩
+    simp only [Option.some_or, Option.some.injEq]
+    rintro rfl
+    exact hct hm
+
+/-! ### 6. add_statics and period_merge: coordinates and count never change -/
+
+/-- a cell-wise map that only rewrites `values` keeps the canonical form: same order, same class,
+same dates -/
+theorem frame_map_canonical {f : Cell → Cell} (hf : ∀ c, f c = { c with values := (f c).values })
+    {t : List Cell} (ht : Canonical t) : Canonical (t.map f) := by
+  have hle : ∀ a b, Cell.le (f a) (f b) = Cell.le a b := by
+    intro a b; rw [hf a, hf b]; rfl
+  have hk : ∀ c, (f c).kind = c.kind := fun c => by rw [hf c]
+  have hd : ∀ c, (f c).datesOk = c.datesOk := fun c => by rw [hf c]; rfl
+  refine ⟨?_, ?_, ?_⟩
+  · rw [List.pairwise_map]; exact ht.1.imp (fun {a b} h => by rw [hle]; exact h)
+  · have := ht.2.1
+    unfold kindsConsistent at this ⊢
+    simpa only [List.all_map, Function.comp_def, hk] using this
+  · intro c hc
+    obtain ⟨c₀, hc₀, rfl⟩ := List.mem_map.mp hc
+    rw [hd]; exact ht.2.2 c₀ hc₀
+
+theorem addStaticsCell_frame (src : List Cell) (st : List String) (c : Cell) :
+    addStaticsCell src st c = { c with values := (addStaticsCell src st c).values } := by
+  unfold addStaticsCell
+  split <;> rfl
+
+/-- on a triangle the result of `add_statics` is the cell-wise image, in the same order: same
+number of cells, same coordinates, class and metadata position by position -/
+theorem addStatics_eq_map {t src : List Cell} {st : List String} (ht : Canonical t) :
+    addStatics t src st = .ok (t.map (addStaticsCell src st)) :=
+  ofCells_idem (frame_map_canonical (addStaticsCell_frame src st) ht)
+
+theorem sourceCell?_spec {src : List Cell} {c s : Cell} (h : sourceCell? src c = some s) :
+    s ∈ src ∧ s.md = c.md ∧ s.ps = c.ps ∧ s.pe = c.pe ∧
+    ∀ s' ∈ src, s'.md = c.md → s'.ps = c.ps → s'.pe = c.pe → s'.ev ≤ s.ev := by
+  unfold sourceCell? at h
+  have hle : evLe = leOf (cmpOn (·.ev) Date.cmp) := rfl
+  rw [hle] at h
+  obtain ⟨hm, hmax⟩ := lastBy?_max h
+  obtain ⟨hs, hcond⟩ := List.mem_filter.mp hm
+  simp only [Bool.and_eq_true, beq_iff_eq] at hcond
+  refine ⟨hs, hcond.1.1, hcond.1.2, hcond.2, fun s' hs' h1 h2 h3 => ?_⟩
+  have := hmax s' (List.mem_filter.mpr ⟨hs', by simp [h1, h2, h3]⟩)
+  show Date.cmp s'.ev s.ev ≠ .gt
+  simpa [leOf, cmpOn] using this
+
+theorem sourceCell?_none {src : List Cell} {c : Cell} (h : sourceCell? src c = none) :
+    ∀ s' ∈ src, ¬ (s'.md = c.md ∧ s'.ps = c.ps ∧ s'.pe = c.pe) := by
+  unfold sourceCell? lastBy? at h
+  intro s' hs' ⟨h1, h2, h3⟩
+  have hmem : s' ∈ (src.filter (fun s => s.md == c.md && s.ps == c.ps && s.pe == c.pe)).mergeSort evLe :=
+    (List.mergeSort_perm _ _).mem_iff.mpr (List.mem_filter.mpr ⟨hs', by simp [h1, h2, h3]⟩)
+  rw [List.getLast?_eq_none_iff] at h
+  rw [h] at hmem; cases hmem
+
+/-- **addStatics_spec** (cell level): only requested fields can change; a requested field takes the
+value of the LATEST source cell of the same slice (metadata) and period when that cell has the
+field, else keeps the cell's own value; without such a source cell the cell is unchanged. -/
+theorem addStaticsCell_values (src : List Cell) (st : List String) (c : Cell) :
+    (∀ f, f ∉ st → (addStaticsCell src st c).values.get? f = c.values.get? f) ∧
+    (∀ s, sourceCell? src c = some s → s.values.WF → ∀ f ∈ st,
+        (addStaticsCell src st c).values.get? f = (s.values.get? f).or (c.values.get? f)) ∧
+    (sourceCell? src c = none → addStaticsCell src st c = c) := by
+  refine ⟨fun f hf => ?_, fun s hs hwf f hf => ?_, fun hn => ?_⟩
+  · unfold addStaticsCell
+    split
+    · simp only [Cell.addStatics]
+      apply Dict.get?_union_of_not_mem
+      intro hmem
+      have := (Dict.keys_filter_sub _ (fun k => st.contains k) hmem).1
+      exact hf (List.contains_iff_mem.mp this)
+    · rfl
+  · unfold addStaticsCell
+    rw [hs]
+    simp only [Cell.addStatics]
+    rw [Dict.get?_union _ _ (Dict.WF_filter hwf _), Dict.get?_filter _ (fun k => st.contains k)]
+    simp [hf]
+  · unfold addStaticsCell; rw [hn]
+
+/-- **addStatics_spec**: on a triangle, `add_statics` returns as many cells as it got, cell `i` of
+the result has the frame (class, dates, metadata) of cell `i` of the input, and differs from it
+only in requested fields (`addStaticsCell_values` says how). -/
+theorem addStatics_spec {t src out : List Cell} {st : List String} (ht : Canonical t)
+    (h : addStatics t src st = .ok out) :
+    out.length = t.length ∧
+    ∀ i (hi : i < t.length) (ho : i < out.length),
+      out[i] = { t[i] with values := out[i].values } ∧
+      ∀ f, f ∉ st → out[i].values.get? f = t[i].values.get? f := by
+  rw [addStatics_eq_map ht] at h
+  cases h
+  refine ⟨List.length_map _, fun i hi ho => ?_⟩
+  rw [List.getElem_map]
+  exact ⟨addStaticsCell_frame src st _, (addStaticsCell_values src st _).1⟩
+
+/-! period_merge -/
+
+/-- the total cell map behind `periodMergeCell` -/
+def pmCell (b : List Cell) (suffix : Option String) (c : Cell) : Cell :=
+  match b.filter (samePeriodKey c) with
+  | [r] => overwriteValues c r suffix
+  | _ => c
+
+theorem pmCell_frame (b : List Cell) (suffix : Option String) (c : Cell) :
+    pmCell b suffix c = { c with values := (pmCell b suffix c).values } := by
+  unfold pmCell
+  split <;> rfl
+
+theorem periodMergeCell_ok {b : List Cell} {suffix : Option String} {c c' : Cell}
+    (h : periodMergeCell b suffix c = .ok c') : c' = pmCell b suffix c := by
+  unfold periodMergeCell at h
+  unfold pmCell
+  split at h
+  · rename_i hf; cases h; rw [hf]
+  · rename_i r hf; cases h; rw [hf]
+  · cases h
+
+/-- **periodMerge_spec**: on a triangle `period_merge` either raises `ValueError` or returns the
+cell-wise image in the same order (same count, frames unchanged); a left cell whose
+(period, metadata) has exactly one right cell `r` gets `{**values, **suffixed(r.values)}`, every
+other cell is returned as is; success means no index of the left triangle had several right cells
+and the classes agree. -/
+theorem periodMerge_spec {a b out : List Cell} {suffix : Option String} (ha : Canonical a)
+    (h : periodMerge a b suffix = .ok out) :
+    kindMismatch a b = false ∧ out = a.map (pmCell b suffix) ∧
+    ∀ c ∈ a, (b.filter (samePeriodKey c)).length ≤ 1 := by
+  unfold periodMerge at h
+  simp only [bind, Except.bind, throw, throwThe, MonadExceptOf.throw] at h
+  split at h
+  · cases h
+  · rename_i hk
+    split at h
+    · cases h
+    · rename_i cells hcells
+      obtain ⟨hmap, hall⟩ := mapM_ok_map (g := pmCell b suffix) (fun _ _ => periodMergeCell_ok) hcells
+      subst hmap
+      rw [ofCells_idem (frame_map_canonical (pmCell_frame b suffix) ha)] at h
+      cases h
+      refine ⟨by simpa using hk, rfl, fun c hc => ?_⟩
+      have := hall c hc
+      unfold periodMergeCell at this
+      split at this
+      · rename_i hf; rw [hf]; simp
+      · rename_i r hf; rw [hf]; simp
+      · cases this
+
+/-- values of a period-merged cell: right side wins, names suffixed when the suffix is non-empty -/
+theorem pmCell_values {b : List Cell} {suffix : Option String} {c r : Cell}
+    (h : b.filter (samePeriodKey c) = [r]) (hr : (applySuffix suffix r.values).WF) (f : String) :
+    (pmCell b suffix c).values.get? f =
+      (Dict.get? (applySuffix suffix r.values) f).or (c.values.get? f) := by
+  unfold pmCell; rw [h]
+  exact Dict.get?_union _ _ hr f
+
+theorem periodMerge_kind_mismatch {a b : List Cell} {suffix : Option String}
+    (h : kindMismatch a b = true) : periodMerge a b suffix = .error .valueError := by
+  unfold periodMerge
+  simp [h, bind, Except.bind, throw, throwThe, MonadExceptOf.throw]
+
+/-! ### 7. identity law -/
+
+theorem kindMismatch_self (t : List Cell) : kindMismatch t t = false := by
+  cases t <;> simp [kindMismatch]
+
+theorem allCoordinates_self {t : List Cell} (hn : (t.map (joinKey (isIncremental t))).Nodup) :
+    allCoordinates t t = t.map (joinKey (isIncremental t)) := by
+  unfold allCoordinates
+  simp only []
+  rw [dedup_append_of_subset (fun _ h => h), dedup_of_nodup hn]
+
+theorem setExpr_self {ty : JoinType} (hty : ty = .full ∨ ty = .inner ∨ ty = .left ∨ ty = .right)
+    {K : List Coord} {k : Coord} (hk : k ∈ K) : Spec.setExpr ty K K k = true := by
+  rcases hty with rfl | rfl | rfl | rfl <;> simp [Spec.setExpr, hk]
+
+theorem joinCore_self {ty : JoinType} (hty : ty = .full ∨ ty = .inner ∨ ty = .left ∨ ty = .right)
+    {t : List Cell} (hn : (t.map (joinKey (isIncremental t))).Nodup) :
+    joinCore ty t t = t.map (fun c => (some c, some c)) := by
+  rw [joinCore_eq, allCoordinates_self hn, List.filter_eq_self.mpr (fun k hk => setExpr_self hty hk),
+    List.map_map]
+  apply List.map_congr_left
+  intro c hc
+  have : dictGet (isIncremental t) t (joinKey (isIncremental t) c) = some c := by
+    rw [dictGet_eq_cellAt hn]; exact (cellAt_eq_some_iff hn).mpr ⟨hc, rfl⟩
+  simp only [Function.comp, pairOf, this]
+
+/-- **merge_self**: merging a triangle with itself gives the triangle back (for the four join types
+that keep matched coordinates), under distinct keys — the value dicts included, order and all. -/
+theorem merge_self {ty : JoinType} (hty : ty = .full ∨ ty = .inner ∨ ty = .left ∨ ty = .right)
+    {t : List Cell} (ht : Canonical t) (hn : (t.map (joinKey (isIncremental t))).Nodup)
+    (hv : ∀ c ∈ t, c.values.WF) : merge (some ty) none t t = .ok t := by
+  have hj : join (some ty) none t t = .ok (joinCore ty t t) := by
+    unfold join
+    simp [kindMismatch_self, reduceOn, bind, Except.bind, pure, Except.pure]
+  unfold merge
+  simp only [hj, bind, Except.bind]
+  rw [joinCore_self hty hn, List.filterMap_map]
+  have : List.filterMap (mergeCellPair ∘ fun c => (some c, some c)) t = t := by
+    apply filterMap_eq_self
+    intro c hc
+    simp only [Function.comp, mergeCellPair, Dict.union_self (hv c hc)]
+  rw [this]
+  exact ofCells_idem ht
+
+/-! ### 8. the executable Spec predicates hold of the model's results -/
+
+/-- **`Spec.joinSpec` holds of the model's `join`** for every join type and every `on`, under the
+distinct-keys hypothesis `Spec.joinHyp` (this is the predicate the driver evaluates on the
+implementation's output). -/
+theorem joinSpec_of_join {ty : JoinType} {on : Option (List String)} {a b : List Cell}
+    {ps : List CellPair} (hyp : Spec.joinHyp on a b = true) (h : join (some ty) on a b = .ok ps) :
+    Spec.joinSpec ty on a b ps = true := by
+  unfold Spec.joinHyp at hyp
+  simp only [Bool.and_eq_true, nodupB_iff] at hyp
+  obtain ⟨hna, hnb⟩ := hyp
+  obtain ⟨hnd, hnone, hset⟩ := join_keys_on h
+  have hex := join_pairs_exact h hna hnb
+  unfold Spec.joinSpec
+  simp only [Bool.and_eq_true, List.all_eq_true]
+  refine ⟨⟨nodupB_iff.mpr hnd, fun p hp => ?_⟩, fun k _ => ?_⟩
+  · obtain ⟨k, hk, hpe⟩ := hex p hp
+    rw [hk]
+    simp only [Bool.and_eq_true, beq_iff_eq]
+    refine ⟨⟨(hset k).mp (List.mem_map.mpr ⟨p, hp, hk⟩), ?_⟩, ?_⟩
+    · rw [hpe]
+    · rw [hpe]
+  · simp only [Bool.or_eq_true, Bool.not_eq_true']
+    by_cases hs : Spec.setExpr ty ((Spec.onCells on a).map (joinKey (isIncremental a)))
+        ((Spec.onCells on b).map (joinKey (isIncremental a))) k = true
+    · exact Or.inr (List.contains_iff_mem.mpr ((hset k).mpr hs))
+    · exact Or.inl (by simpa using hs)
+
+/-- **`Spec.coalesceSpec` holds of the model's `coalesce`** (no hypothesis needed) -/
+theorem coalesceSpec_of_coalesce {ts : List (List Cell)} {out : List Cell}
+    (h : coalesce ts = .ok out) : Spec.coalesceSpec ts out = true := by
+  obtain ⟨h1, h2, h3⟩ := coalesce_first_wins h
+  unfold Spec.coalesceSpec
+  simp only [Bool.and_eq_true, List.all_eq_true, beq_iff_eq]
+  exact ⟨⟨nodupB_iff.mpr h2, fun c hc => (h1 c).mp hc⟩,
+    fun d hd => List.contains_iff_mem.mpr (h3 d hd)⟩
+
+/-! ### 9. non-vacuity: concrete operands satisfy the hypotheses -/
+
+def isValueError {α} : Except Err α → Bool
+  | .error .valueError => true
+  | _ => false
+
+def exUS : Metadata := { country := some "US", details := [("k", .num 1)] }
+def exDE : Metadata := { country := some "DE", details := [("k", .num 2)] }
+
+def exCell (m : Metadata) (ev : Date) (vs : Dict Val) : Cell :=
+  { kind := .cumulative, ps := ⟨2020, 1, 1⟩, pe := ⟨2020, 12, 31⟩, ev := ev, values := vs, md := m }
+
+/-- left operand: two slices, three cells -/
+def exA : List Cell :=
+  [ exCell exDE ⟨2021, 12, 31⟩ [("paid_loss", .int 5)],
+    exCell exUS ⟨2021, 12, 31⟩ [("paid_loss", .int 1), ("earned_premium", .int 10)],
+    exCell exUS ⟨2022, 12, 31⟩ [("paid_loss", .int 2), ("earned_premium", .int 10)] ]
+
+/-- right operand: shares one coordinate with `exA` (conflicting `paid_loss`, new field), has one
+coordinate of its own -/
+def exB : List Cell :=
+  [ exCell exUS ⟨2021, 12, 31⟩ [("paid_loss", .int 7), ("reported_loss", .int 9)],
+    exCell exUS ⟨2023, 12, 31⟩ [("paid_loss", .int 3)] ]
+
+theorem exA_canonical : Canonical exA := by
+  refine ⟨by decide +kernel, by decide, by decide⟩
+
+example : Spec.joinHyp none exA exB = true := by decide +kernel
+example : Spec.joinHyp (some ["country"]) exA exB = true := by decide +kernel
+
+
+/-- inner join without `on`: exactly the shared coordinate, carrying both original cells -/
+example : (join (some .inner) none exA exB).toOption = some [(exA[1]?, exB[0]?)] := by
+  decide +kernel
+
+/-- left_anti: the two left-only coordinates, right side `None` -/
+example : (join (some .leftAnti) none exA exB).toOption =
+    some [(exA[0]?, none), (exA[2]?, none)] := by decide +kernel
+
+/-- full merge, the list handed to `Triangle(...)`: the matched coordinate has the union of fields
+and the right value of `paid_loss`; the other cells are the operands' own -/
+example : (joinCore .full exA exB).filterMap mergeCellPair =
+    [ exA[0]!, exA[2]!,
+      exCell exUS ⟨2021, 12, 31⟩
+        [("paid_loss", .int 7), ("earned_premium", .int 10), ("reported_loss", .int 9)],
+      exB[1]! ] := by decide +kernel
+
+/-- the hypotheses of `merge_self` are satisfiable -/
+example : merge (some .full) none exA exA = .ok exA :=
+  merge_self (Or.inl rfl) exA_canonical (by decide +kernel) (by unfold Dict.WF; decide +kernel)
+
+/-- coalesce, the list handed to `Triangle(...)`: the first triangle wins the shared coordinate -/
+example : firstsBy coalKey [] [exB, exA].flatten = [exB[0]!, exB[1]!, exA[0]!, exA[2]!] := by
+  decide +kernel
+
+/-- period_merge refuses a right triangle with two cells in one (period, metadata) -/
+example : isValueError (periodMerge exA exB none) = true := by decide +kernel
+
+/-- … and with one right cell per period suffixes the incoming fields -/
+example : exA.map (pmCell [exB[0]!] (some "_r")) =
+    [ exA[0]!,
+      exCell exUS ⟨2021, 12, 31⟩ [("paid_loss", .int 1), ("earned_premium", .int 10),
+        ("paid_loss_r", .int 7), ("reported_loss_r", .int 9)],
+      exCell exUS ⟨2022, 12, 31⟩ [("paid_loss", .int 2), ("earned_premium", .int 10),
+        ("paid_loss_r", .int 7), ("reported_loss_r", .int 9)] ] := by decide +kernel
+
+/-! ### 10. statements not proved here (kept visible; checked by the differential run only) -/
+
+-- OPEN mergeSpec_of_merge
+-- theorem mergeSpec_of_merge {ty on a b out} (hyp : Spec.joinHyp on a b = true)
+--     (hv : ∀ c ∈ a ++ b, c.values.WF) (h : merge (some ty) on a b = .ok out) :
+--     Spec.mergeSpec ty on a b out = true
+-- (the Prop-level content is proved: `merge_cells`, `merge_values`, `merge_unmatched_id`,
+--  `merge_length`, `join_keys_on`, `join_pairs_exact`; missing is the Bool bridge for `isRightUnion`)
+
+-- OPEN addStaticsSpec_of_addStatics
+-- theorem addStaticsSpec_of_addStatics {t src st out} (ht : Canonical t)
+--     (hyp : Spec.addStaticsHyp t src = true) (hv : ∀ c ∈ src, c.values.WF)
+--     (h : addStatics t src st = .ok out) : Spec.addStaticsSpec t src st out = true
+-- (proved at Prop level: `addStatics_spec`, `addStaticsCell_values`, `sourceCell?_spec`; missing:
+--  `Spec.latestSource?` (fold max) picks the same cell as `sourceCell?` under `addStaticsHyp`)
+
+-- OPEN periodMergeSpec_of_periodMerge
+-- theorem periodMergeSpec_of_periodMerge {a b sfx out} (ha : Canonical a)
+--     (hv : ∀ c ∈ b, (applySuffix sfx c.values).WF) (h : periodMerge a b sfx = .ok out) :
+--     Spec.periodMergeSpec a b sfx out = true
+-- (proved at Prop level: `periodMerge_spec`, `pmCell_values`)
+
+-- OPEN select_merge_recombine
+-- theorem select_merge_recombine {t ks₁ ks₂ t₁ t₂ m} (ht : Canonical t) (hn : distinct keys)
+--     (h₁ : Triangle.select t ks₁ = .ok t₁) (h₂ : Triangle.select t ks₂ = .ok t₂)
+--     (h : merge (some .full) none t₁ t₂ = .ok m) :
+--     ∀ i, m[i] has the frame of t[i] and  m[i].values.get? f = if f ∈ ks₁ ∪ ks₂ then t[i].values.get? f else none
+
+-- OPEN addStatics_regrouping
+-- the literal Python loop (`triangle.slices` → concatenate per slice → `Triangle(...)`) equals
+-- `Triangle.ofCells (t.map (addStaticsCell src st))` for EVERY cell list `t` (for sorted `t` both are
+-- `t.map …` by `addStatics_eq_map`); same for the regrouping by index inside `period_merge`.
+
 end Bermuda.Properties.C10
